@@ -6,8 +6,8 @@ From TL Require Import Lib.Base Lib.GenTypes Model.PyStr Model.Edit.
 From TL Require Import Gen.IgnoreGen Model.Ignore Model.IgnoreSpec.
 From TL Require Import Model.DryBase Model.DryPipe Gen.DryGen Model.Dry.
 From TL Require Import Model.SrpTypes Gen.SrpGen Model.SrpSpec Model.Srp.
-From TL Require Import Gen.EditGen Model.EditRun Actual.EditActual.
-From TL Require Import Proofs.EditList Proofs.EditIgnore Proofs.EditLines Proofs.EditDry Proofs.EditSrp Proofs.EditFacts Proofs.EditMain.
+From TL Require Import Gen.EditGen Model.EditRun Actual.SrpActual Actual.EditActual.
+From TL Require Import Proofs.EditList Proofs.EditIgnore Proofs.EditLines Proofs.EditDry Proofs.EditSrp Proofs.EditFacts Proofs.EditMain Proofs.EditFixed.
 
 (* ------------------------------------------------------------------ 1. suppression decisions (Model/Ignore.v) *)
 (* For EVERY quirk vector of the shared suppression parser, every file, every violation line and rule: inserting a
@@ -144,7 +144,7 @@ Print Assumptions C13_dry_span_outside.
 
 (* ------------------------------------------------------------------ 3. lines of code of a class (Model/Srp.v) *)
 Theorem C13_py_loc_insert : forall q lines c k x, py_line_counts q x = false -> k <= List.length lines ->
-  1 <= c_line c -> 1 <= c_len c ->
+  1 <= c_line c -> 1 <= c_len c -> c_deco c = 0 ->
   py_count_loc q (ins k x lines) (EditSrp.shift_cls k c) = py_count_loc q lines c.
 Proof. exact EditSrp.py_loc_insert. Qed.
 Print Assumptions C13_py_loc_insert.
@@ -166,18 +166,20 @@ Proof.
 Qed.
 Print Assumptions C13_blank_and_comment_not_counted.
 
-(* TypeScript / JavaScript: invariant once the raw-span flag is off; as the code is, exactly one more per inserted line *)
-Theorem C13_ts_loc_insert_flag_off : forall q lines c k x, q_ts_loc_raw_span q = false -> is_code x = false ->
-  k <= List.length lines -> 1 <= c_line c -> 1 <= c_len c ->
+(* TypeScript / JavaScript: the line-count rule is read from the source (Gen.SrpGen.ts_loc_mode); since fix c90fc92 it filters
+   the lines of the class node, so the metric is invariant under every quirk vector, decorators included (the former guard
+   q_ts_loc_raw_span = false is gone with the flag) *)
+Theorem C13_ts_loc_insert : forall q lines c k x, ts_line_counts q "//" x = false -> k <= List.length lines ->
+  1 <= EditSrp.node_start c -> c_deco c <= c_line c -> 1 <= c_len c ->
   ts_count_loc q (ins k x lines) (EditSrp.shift_cls k c) = ts_count_loc q lines c.
-Proof. exact EditSrp.ts_loc_insert_flag_off. Qed.
-Print Assumptions C13_ts_loc_insert_flag_off.
+Proof. exact EditSrp.ts_loc_insert. Qed.
+Print Assumptions C13_ts_loc_insert.
 
-Theorem C13_ts_loc_insert_raw_partial : forall q lines c k x, q_ts_loc_raw_span q = true -> 1 <= c_line c -> 1 <= c_len c ->
-  c_line c <= k -> k < c_line c + c_len c - 1 ->
-  ts_count_loc q (ins k x lines) (EditSrp.shift_cls k c) = S (ts_count_loc q lines c).
-Proof. exact EditSrp.ts_loc_insert_raw. Qed.
-Print Assumptions C13_ts_loc_insert_raw_partial.
+Theorem C13_ts_blank_and_comment_not_counted : forall q t,
+  ts_line_counts q "//" {| l_kind := LBlank; l_text := "" |} = false /\
+  ts_line_counts q "//" {| l_kind := LComment; l_text := ("//" ++ t)%string |} = false.
+Proof. exact (fun q t => conj (EditSrp.ts_blank_not_counted q) (EditSrp.ts_comment_not_counted q t)). Qed.
+Print Assumptions C13_ts_blank_and_comment_not_counted.
 
 Theorem C13_py_loc_append : forall q lines extra c, c_line c + c_len c - 1 <= List.length lines ->
   py_count_loc q (lines ++ extra) c = py_count_loc q lines c.
@@ -216,6 +218,41 @@ Theorem C13_suppression_crlf : forall q repo content v r, EditLines.no_cr conten
   should_ignore q repo (to_crlf content) v r = should_ignore q repo content v r.
 Proof. exact EditMain.should_ignore_crlf. Qed.
 Print Assumptions C13_suppression_crlf.
+
+(* ------------------------------------------------------------------ 4b. byte-order mark *)
+(* the codec is read from the source; with a BOM-stripping codec (the claimed vector since fix bbc2cf4) a mark in front of a
+   file is invisible to every text-level step of the model *)
+Theorem C13_bom_invisible : forall q l r, e_bom_kept q = false -> prefixb bom l = false ->
+  seen q (apply AddBOM (l :: r)) = seen q (l :: r).
+Proof. exact EditFixed.bom_invisible. Qed.
+Print Assumptions C13_bom_invisible.
+
+Theorem C13_actual_strips_bom : e_bom_kept edit_actual = false.
+Proof. exact EditFixed.actual_bom_off. Qed.
+Print Assumptions C13_actual_strips_bom.
+
+(* regressions: the witnesses of the repaired findings q_ts_loc_raw_span and q_bom_kept now meet the specification under the
+   claimed vector *)
+Theorem C13_regression_ts_loc :
+  let lines := [{| l_kind := LCode; l_text := "class A {" |}; {| l_kind := LCode; l_text := "x = 1;" |}; {| l_kind := LCode; l_text := "}" |}] in
+  let c := {| c_name := "A"; c_kind := CPlain; c_line := 1; c_col := 0; c_deco := 0; c_len := 3; c_members := [] |} in
+  ts_count_loc srp_actual (ins 1 {| l_kind := LBlank; l_text := "" |} lines) (EditSrp.shift_cls 1 c)
+  = ts_count_loc srp_actual lines c.
+Proof. exact EditSrp.ts_loc_old_witness_invariant. Qed.
+Print Assumptions C13_regression_ts_loc.
+
+Theorem C13_regression_bom_tokens :
+  let f := ["import os"; "x = 1"; "y = 2"] in
+  tokens_model edit_actual 0 [] (apply AddBOM f) = tokens_model edit_actual 0 [] f.
+Proof. exact EditFixed.bom_tokens_old_witness. Qed.
+Print Assumptions C13_regression_bom_tokens.
+
+Theorem C13_regression_bom_first_line_directive :
+  let f := ["// thailint: ignore-start nesting"; "function g(x) {"; "// thailint: ignore-end"] in
+  ignore_model edit_actual (apply AddBOM f) [(2, "nesting.excessive-depth")] = [true] /\
+  ignore_model edit_actual f [(2, "nesting.excessive-depth")] = [true].
+Proof. exact EditFixed.bom_first_line_directive_old_witness. Qed.
+Print Assumptions C13_regression_bom_first_line_directive.
 
 (* ------------------------------------------------------------------ 5. sequences, literals, non-vacuity *)
 (* any observation that every admissible edit preserves up to the shift is preserved by every admissible sequence *)
